@@ -24,6 +24,8 @@ func init() {
 
 func runC15(p *eng.Prog, r *eng.Report, tier string) {
 	c := &cx{p, r, tier}
+	r19StrictDataDecoding(c, "C15.34")
+	r19ExpectKeysAgree(c, "C15.35")
 	r17RefusalTableComplete(c, "C15.33")
 	r17ListenersUnderTheirOwnAddress(c, "C15.32")
 	// C15.31 (= C06.6): the answer to <close/> is released on every path (an unreleased response blocks the
